@@ -76,6 +76,72 @@ def run_config(cfg, transport='udp', calls=3):
     return vio, tuple(outcomes) + (len(inv.sensors()),)
 
 
+# ------------------------------------------------------------------ capabilities that change BETWEEN calls
+
+CHANGES = ['battery-off', 'battery-on'] + [f'refuse:{b}' for b in ('battery', 'battery2', 'meter_ext', 'meter_ext2', 'mppt')] + \
+          [f'accept:{b}' for b in ('battery', 'meter_ext2', 'mppt')]
+
+
+def run_dynamic(cfg, changes, probe_reads=False):
+    """call, change, call, change, call ... : whenever a call returns, keys == sensors() right after it."""
+    from ..devsim import ET_OPTIONAL
+    r = make_rig(cfg)
+    inv, dev = r.inv, r.dev
+    vio = []
+    if r.call(inv.read_device_info)[0] != 'ok':
+        return [('device-info-succeeds', '')], ()
+    outs = []
+    shorts = []
+    for step in [None] + list(changes) + [None]:
+        if step == 'battery-off':
+            dev.rf.set(35184, 0)
+        elif step == 'battery-on':
+            dev.rf.set(35184, 2)
+        elif step and step.startswith('refuse:'):
+            dev.refused = [x for x in dev.refused if x not in ET_OPTIONAL[step[7:]]] + ET_OPTIONAL[step[7:]]
+        elif step and step.startswith('accept:'):
+            dev.refused = [x for x in dev.refused if x not in ET_OPTIONAL[step[7:]]]
+        if probe_reads:
+            from .c14 import Probe
+            with Probe() as p:
+                res = r.call(inv.read_runtime_data)
+            shorts += [(x[0], step) for x in p.short]
+        else:
+            res = r.call(inv.read_runtime_data)
+        outs.append(res[0])
+        if res[0] == 'ok':
+            keys, ids = set(res[1]), {s.id_ for s in inv.sensors()}
+            if keys != ids:
+                vio.append(('keys==sensors()', f'after {step}: in result only {sorted(keys - ids)[:3]}, in sensors() only {sorted(ids - keys)[:3]}'))
+    # two failures in a row are only legitimate while the device keeps changing; the last two calls see a static device
+    if outs[-1] != 'ok' and outs[-2] != 'ok':
+        vio.append(('succeeds-by-second-call', f'outcomes {outs} for changes {list(changes)}'))
+    if dev.bad:
+        vio.append(('requests-parse', str(dev.bad[0][1])))
+    return vio, tuple(outs), shorts
+
+
+def job_dyn(j):
+    import itertools
+    cfg, depth = j
+    out = {}
+    n = 0
+    for k in range(1, depth + 1):
+        for changes in itertools.product(CHANGES, repeat=k):
+            vio, outs, _ = run_dynamic(cfg, changes)
+            n += 1
+            for clause, cause in vio:
+                key = f"{clause}/{cfg['family']}/dynamic:{'+'.join(sorted(set(c.split(':')[0] + ':' + c.split(':')[-1] for c in changes)))}"
+                out.setdefault(key, []).append(dict(key=key, clause=clause, replay=dict(cfg=cfg, transport='udp', changes=list(changes)),
+                                                    detail=dict(cause=cause, changes=list(changes))))
+    res = []
+    for key, lst in out.items():
+        lst.sort(key=lambda v: len(v['replay']['changes']))
+        lst[0]['n'] = len(lst)
+        res.append(lst[0])
+    return n, res
+
+
 def job(cfgs):
     out = {}
     n = 0
@@ -131,6 +197,20 @@ def run(tier, seed, rep):
         for kk, v in oc.items():
             ocs[kk] = ocs.get(kk, 0) + v
         allres.extend(res)
+    dyn_cfgs = [dict(family='ET', tag=t, power=p, refused=(), battery_mode=bm)
+                for t, p in (('ETU', 3000), ('ETU', 25000), ('ETT', 10000), ('EHU', 5000), ('HSB', 5000))
+                for bm in (0, 2)]
+    ndyn = 0
+    dbest = {}
+    for n, res in pmap(job_dyn, [(c, 2 if tier == 'quick' else 3) for c in dyn_cfgs]):
+        ndyn += n
+        for v in res:
+            k = tuple(v['key'].split('/')[:2])
+            if k not in dbest or len(v['replay']['changes']) < len(dbest[k]['replay']['changes']):
+                v['n'] = v.get('n', 1) + (dbest[k]['n'] if k in dbest else 0)
+                dbest[k] = v
+    rep.add_many(list(dbest.values()))
+    total += ndyn
     # one key per (clause, family): the smallest refused subset that fails (the others are the same cause)
     best = {}
     for v in allres:
@@ -144,7 +224,7 @@ def run(tier, seed, rep):
         v['n'] = cnt
         rep.add_many([v])
     cov = dict(states=len(states), transitions=total * 4, executions=total, traces_validated_against_impl=total,
-               configurations=total, distinct_outcome_classes=len(ocs),
+               configurations=total, dynamic_histories=ndyn, distinct_outcome_classes=len(ocs),
                outcome_classes={str(k): v for k, v in sorted(ocs.items(), key=str)[:30]}, exhaustive=True,
                bound=('every ET/DT/ES model tag' if tier == 'thorough' else 'one ET tag per predicate class, every DT/ES tag') +
                      ' x rated power {3000,14999,15000,24999,25000,50000} x every subset of refused optional blocks x '
@@ -160,5 +240,8 @@ def run(tier, seed, rep):
 def replay(r):
     cfg = r['cfg']
     cfg['refused'] = tuple(cfg['refused'])
+    if 'changes' in r:
+        vio, outs, _ = run_dynamic(cfg, r['changes'])
+        return dict(outcomes=outs, violations=vio)
     vio, oc = run_config(cfg, r['transport'])
     return dict(outcome=[str(x) for x in oc], violations=vio)
